@@ -347,7 +347,7 @@ def check_roundtrip(ck, lib, c, gm, s, steps):
       if not j or not any(back.contact.efc_address[k] >= 0 and bits_equal(Jb[back.contact.efc_address[k]], Ja[adr]) for k in j):
         raise Violation('contact %d: efc_address after round trip does not point at its constraint row' % i, bucket='B-efc-address')
   # mjx.Data must not alias the MjData it was made from: mutate the source (step it, overwrite inputs) and re-read dx
-  snap = leaves(jax, dx)
+  snap = {k: np.array(v, copy=True) for k, v in leaves(jax, dx).items()}    # np.asarray of a CPU jax array is itself a view
   md.xfrc_applied[...] += 0.25
   md.qfrc_applied[...] -= 0.5
   if mm.nu:
@@ -508,6 +508,19 @@ ASSUMPTIONS = ['put_data/get_data/make_data operate on mujoco.MjModel/MjData of 
                'Jacobian is exactly zero (dropped by get_data), ten_J when a structural entry is exactly zero (values shifted by get_data)']
 
 
+# feature-pinned transfer model: an inactive and an active equality (MjData.ne < static MJX ne), frictionloss rows, limits that are
+# active in part of the states, and contacts of two condims - the layout conversions of put_data/get_data all have work to do
+PINNED_XML = ('<mujoco><option cone="%s"/><worldbody><geom name="floor" type="plane" size="3 3 .1" condim="3"/>'
+              '<body name="b1" pos="0 0 .5"><joint name="h" type="hinge" axis="0 1 0" range="-8 8" limited="true" frictionloss="0.3"/>'
+              '<geom type="capsule" size=".04 .15" pos="0 0 -.15"/>'
+              '<body name="b2" pos="0 0 -.3"><joint name="s" type="slide" axis="0 0 1" range="-0.05 0.05" limited="true" frictionloss="0.2"/>'
+              '<geom type="sphere" size=".09" pos="0 0 -.14" condim="4"/></body></body>'
+              '<body name="b3" pos=".5 0 .07"><joint name="f" type="free"/><geom type="sphere" size=".08" condim="6"/></body></worldbody>'
+              '<tendon><fixed name="t" frictionloss="0.1" limited="true" range="-0.02 0.02"><joint joint="h" coef="1"/><joint joint="s" coef="2"/></fixed></tendon>'
+              '<equality><joint name="e0" joint1="h" joint2="s" polycoef="0 0.5 0 0 0" active="false"/><connect name="e1" body1="b3" anchor="0 0 .1"/>'
+              '<weld name="e2" body1="b2" body2="b3" active="false"/></equality></mujoco>')
+
+
 def shard_main(ck, shard, nshards):
   mujoco, mjx, jax, jp = mjxload.load()
   lib = ck.lib('rel')
@@ -537,6 +550,8 @@ def shard_main(ck, shard, nshards):
 
   def testBCD(case):
     gm, seeds, sd = case
+    if gm.info.get('pinned'):
+      ck.label('B:pinned')
     try:
       c = gx.build(lib, gm.xml)
     except gx.CompileDiscard:
@@ -553,6 +568,10 @@ def shard_main(ck, shard, nshards):
     for k, s in enumerate(sts):
       check_roundtrip(ck, lib, c, gm, s, steps=[0, 15, 60][k % 3])
     check_state_api(ck, lib, c, gm, sts[0], sts[1], rng, nsig=(24 if ck.quick else 160))
+  if shard == 0:
+    pin = st.sampled_from(['pyramidal', 'elliptic']).map(lambda cone: mg.GenModel(PINNED_XML % cone, dict(labels=['pinned:transfer'], pinned=True)))
+    ck.run_hypothesis(testBCD, st.tuples(pin, st.lists(mg.state_seed(), min_size=3, max_size=3, unique=True), mg.state_seed()),
+                      2 if ck.quick else 8, name='transfer-pinned', shrink=False)
   ck.run_hypothesis(testBCD, st.tuples(gx.models(max_bodies=4, sensors=True, userdata=True),
                                        st.lists(mg.state_seed(), min_size=3, max_size=3, unique=True), mg.state_seed()),
                     nB, name='transfer-%d' % shard, shrink=False)
